@@ -48,6 +48,9 @@ type c20X struct {
 	// identical argument-carrying tag texts in every component (only scanned here, never populated)
 	Dep scen.Iface `wire:",qualifier=c20q"`
 	V   string     `value:"${c20.v:1},validate=required"`
+	Pfx struct {
+		A string `yaml:"a"`
+	} `prefix:"c20.p,required=false"`
 }
 
 func (x *c20X) Naming() string { return x.n }
@@ -262,6 +265,11 @@ type c20Node struct {
 	// `required` (scanners complete the argument list while scanning in parallel)
 	Q    scen.Iface `wire:",qualifier=c20q"`
 	Port int        `value:"${port:8080},validate=min=1"`
+	// a configuration subtree bound by prefix (the properties scanner looks at every field of every
+	// component, the scanners themselves included)
+	Pfx struct {
+		A string `yaml:"a"`
+	} `prefix:"c20.p,required=false"`
 }
 
 // c20Q is the qualified provider of c20Node.Q.
